@@ -1507,13 +1507,16 @@ fn oracle_lu(r: &Req, out: &str) -> Result<(), String> {
             return Err("lusolve succeeded on a matrix with a zero column".into());
         }
         let x = o.fs("b");
-        let (ax, axa) = mm(&a.2, &x, n, n, b.1);
+        // partial pivoting is backward stable in the normwise sense (not row by row):
+        // |A·X − B| <= c·n·eps·(‖A‖·‖X‖ + ‖B‖) for the diagonally dominant family
+        let (ax, _) = mm(&a.2, &x, n, n, b.1);
+        let tol = 1e-10 * n as f64 * (amax(&a.2) * amax(&x) * n as f64 + amax(&b.2)) + 1e-300;
         for q in 0..ax.len() {
-            if !(ax[q].is_finite() && axa[q].is_finite()) {
+            if !ax[q].is_finite() || !tol.is_finite() {
                 continue;
             }
-            if (ax[q] - b.2[q]).abs() > 1e-9 * (axa[q] + b.2[q].abs()) * n as f64 + 1e-300 && kind == "wellcond" {
-                return Err(format!("A·X differs from B at linear index {}: {:e} vs {:e}", q, ax[q], b.2[q]));
+            if (ax[q] - b.2[q]).abs() > tol && kind == "wellcond" {
+                return Err(format!("A·X differs from B at linear index {}: {:e} vs {:e} (tolerance {:e})", q, ax[q], b.2[q], tol));
             }
         }
     } else {
@@ -2107,7 +2110,7 @@ fn eig_cases(s: &mut Session) {
     let mut want = s.rng.bool(0.6);
     // recorded observation C16-dense-eigen-nan-hang: ?syevr with jobz = 'V' never returns when the
     // referenced triangle of an n >= 3 matrix holds a NaN (eigvals, jobz = 'N', returns NaN values)
-    if want && am == (n, n) && n >= 3 && (0..n).any(|j| (0..=j).any(|i| ad[i + n * j].is_nan())) {
+    if want && am == (n, n) && n >= 3 && (0..n).any(|j| (0..=j).any(|i| !ad[i + n * j].is_finite())) {
         want = false;
         s.count("dense:eigen-nan-hang-avoided");
     }
@@ -2143,22 +2146,26 @@ fn svd_cases(s: &mut Session) {
     }
     // recorded observation C16-dense-svd-inf-hang: ?gesdd and ?gesvd never return on a matrix with
     // min(m, n) >= 3 that holds an infinite entry (a NaN is rejected / reported)
-    if m.min(n) >= 3 && ad.iter().any(|x| x.is_infinite()) {
+    // (?gesvd can also loop on a NaN next to huge / tiny entries; ?gesdd rejects every NaN with info = -4)
+    let qr = s.rng.bool(0.4);
+    if m.min(n) >= 3 && ad.iter().any(|x| !x.is_finite()) {
         for x in ad.iter_mut() {
-            if x.is_infinite() {
-                *x = f64::NAN;
+            if x.is_infinite() || (qr && x.is_nan()) {
+                *x = if qr { 1.0 } else { f64::NAN };
             }
         }
-        s.count("dense:svd-inf-hang-avoided");
+        s.count("dense:svd-nonfinite-hang-avoided");
     }
     let ao = as_opnd(s, m, n, ad.clone());
-    let qr = s.rng.bool(0.4);
     // engine: built for the right size, or resized to it from another one, or a wrong one
     let rs = s.rng.bool(0.3);
     let (em, en) = if rs { (dim(s), dim(s)) } else if s.rng.bool(0.92) { (m, n) } else { (m + 1, n) };
     let (rm, rn) = if s.rng.bool(0.92) { (m, n) } else { (m, n + 1) };
     let base = Line::new("dense.svd_factor").u("em", em).u("en", en).b("rs", rs).u("rm", rm).u("rn", rn).b("qr", qr);
     let req0 = Req::parse(&put_opnd(base.clone(), "a", &ao).done()).unwrap();
+    if std::env::var("VERIF_C16_DENSE_TRACE").is_ok() {
+        eprintln!("{}", put_opnd(base.clone(), "a", &ao).done());
+    }
     let mut e1 = svd_engine(&req0);
     let (res, a_after) = e1.factor(&ao);
     let (s1, u1, vt1) = e1.factors();
